@@ -1189,7 +1189,67 @@ fn case_engine(r: &mut Rng, out: &mut Out) {
     });
 }
 
+fn probe() {
+    use grafeo_common::types::Value;
+    use grafeo_core::execution::operators::{NodeListOperator, Operator, VectorJoinOperator, VectorScanOperator};
+    use grafeo_core::graph::lpg::LpgStore;
+    use std::sync::Arc;
+    // (c) brute force with a NaN distance
+    let big = 1e30f32;
+    let xs: Vec<(NodeId, Vec<f32>)> = vec![(NodeId::new(1), vec![1.0, 1.0]), (NodeId::new(2), vec![big, -big]), (NodeId::new(3), vec![2.0, 2.0])];
+    let q = vec![big, big];
+    let r = brute_force_knn(xs.iter().map(|(i, v)| (*i, v.as_slice())), &q, 3, DistanceMetric::DotProduct);
+    println!("brute NaN: {:?}", r);
+    let r = brute_force_knn(xs.iter().map(|(i, v)| (*i, v.as_slice())), &q, 1, DistanceMetric::DotProduct);
+    println!("brute NaN k=1: {:?}", r);
+    // (a) quantized k overflow
+    let res = std::panic::catch_unwind(|| {
+        let ix = QuantizedHnswIndex::with_seed(HnswConfig::new(2, DistanceMetric::Euclidean), QuantizationType::Scalar, 1).with_training_threshold(10);
+        for i in 0..12u64 {
+            ix.insert(NodeId::new(i + 1), &[i as f32, 1.0]);
+        }
+        let r = ix.search(&[0.0, 0.0], usize::MAX);
+        r.len()
+    });
+    println!("quantized k=MAX: {:?}", res.map_err(|_| "panic"));
+    // (b) vector join chunk boundary
+    let store = Arc::new(LpgStore::new());
+    let mut ids = vec![];
+    for i in 0..4 {
+        let n = store.create_node(&["Item"]);
+        store.set_node_property(n, "e", Value::Vector(vec![i as f32, 0.0].into()));
+        ids.push(n);
+    }
+    let left = Box::new(NodeListOperator::new(vec![ids[0], ids[1]], 1024));
+    let mut join = VectorJoinOperator::entity_to_entity(left, Arc::clone(&store), 0, "e", "e", 2, DistanceMetric::Euclidean).with_chunk_capacity(2);
+    let mut rows = vec![];
+    let mut calls = 0;
+    while let Ok(Some(chunk)) = join.next() {
+        calls += 1;
+        for i in 0..chunk.row_count() {
+            rows.push((chunk.column(0).unwrap().get_node_id(i), chunk.column(1).unwrap().get_node_id(i), chunk.column(2).unwrap().get_float64(i)));
+        }
+        if calls > 10 {
+            println!("join: still producing after 10 calls");
+            break;
+        }
+    }
+    println!("join rows: {:?}", rows);
+    let mut scan = VectorScanOperator::brute_force(Arc::clone(&store), "e", vec![0.0, 0.0], 3, DistanceMetric::Euclidean).with_chunk_capacity(2);
+    let mut rows = vec![];
+    while let Ok(Some(chunk)) = scan.next() {
+        for i in 0..chunk.row_count() {
+            rows.push((chunk.column(0).unwrap().get_node_id(i), chunk.column(1).unwrap().get_float64(i)));
+        }
+    }
+    println!("scan rows: {:?}", rows);
+}
+
 fn main() {
+    if std::env::var("C18_PROBE").is_ok() {
+        probe();
+        return;
+    }
     let a = parse_args();
     quiet_panics();
     let mut out = Out::create(a.out.as_deref());
